@@ -24,7 +24,7 @@ META = dict(
     level_text='PARTIAL. Proved in coq/Properties/Properties_C11.v: (a) for every fixed char buffer of src/*.cc,*.h and every statement that writes through it (list regenerated from the source on each run; unclassifiable statements fail closed) the bytes stored never exceed the capacity, for every input length - except two sites that are refuted with witnesses (findings); the READ_INTO macro is transcribed and its bound proved; (b) the nesting depth of the recursive-descent expression parser is unbounded on the current source (finding) and bounded by L if a guard L is present; (c) every division cell of the amount/balance/value model tests the operand it divides by, so a zero divisor never yields a quotient; (d) the period-stepping loop of date_interval_t::stabilize has a strictly increasing variant for every quantity the period parser accepts, and never terminates for a zero quantity (which the source rejects). The model is tied to the code by the regenerated tables and by comparing predicted outcome classes with freshly built ledger on boundary inputs. NOT covered: memory safety, absence of undefined behaviour and bounded stack use of the compiled program in general (heap objects, iterators, std::string, boost, the report/filter code, integer overflow) - for these the check only observes (signals, timeouts, exit status, sanitizer reports in the thorough tier) on boundary-directed, truncated and mutated inputs.',
     level_note='Trusted: Coq kernel; the translator harness/translators/c11_buffers.py (narrow patterns, fail closed) for the site list and guard constants; extraction + OCaml driver + python harness for the correspondence; the calendar is not modelled in (d) (month steps only by the lower bound 28 days per month); the assumption that `line` in textual.cc always points into parse_context_t::linebuf. Sanitizer observation exists only in the thorough tier.',
     design_ref='DESIGN.md section 7 C11, section 12',
-    assumptions=['stack limit of the test environment is the default 8 MiB (the crash depth of findings F4/F20 depends on it)',
+    assumptions=['stack limit of the test environment is the default 8 MiB (the crash depth of findings F4/F38 depends on it)',
                  'textual.cc passes only pointers into parse_context_t::linebuf as `line`',
                  'month arithmetic moves a date forward by at least 28 days per month (boost gregorian)'],
 )
